@@ -38,6 +38,9 @@ pub struct Flow {
     /// offsets inside the record where the tap planted bytes that look like a record header
     #[serde(default)]
     pub hot: Vec<usize>,
+    /// non-zero: TCP/IP header fields without bearing on the byte stream vary per segment (seeded by this)
+    #[serde(default)]
+    pub hdr_noise: u64,
 }
 
 #[derive(Clone, Debug, Serialize, Deserialize)]
@@ -75,6 +78,34 @@ fn frame_of(f: &Flow, a: usize, b: usize, framing: Framing) -> Vec<u8> {
     s.ack = 1;
     s.flags = pkt::ACK | pkt::PSH;
     s.payload = f.stream[a..b].to_vec();
+    if f.hdr_noise != 0 {
+        // TCP / IP header fields that have no bearing on the byte stream vary from segment to segment:
+        // urgent flag and pointer (inside, at the end of, beyond the segment, or zero), ECN bits, window,
+        // options, TTL, ToS
+        let mut r = Rng::new(f.hdr_noise ^ crate::rng::mix64(a as u64 + 1));
+        let n = s.payload.len().max(1) as u64;
+        if r.chance(1, 2) {
+            s.flags |= 0x20;
+            s.urg_ptr = match r.below(5) {
+                0 => 1,
+                1 => 1 + r.below(n) as u16,
+                2 => n as u16,
+                3 => (n as u16).wrapping_add(1 + r.below(50) as u16),
+                _ => 0,
+            };
+        } else if r.chance(1, 3) {
+            s.urg_ptr = 1 + r.below(n) as u16; // pointer without the flag
+        }
+        if r.chance(1, 3) {
+            s.flags |= *r.pick(&[0x40u8, 0x80, 0xc0]);
+        }
+        s.window = r.u16();
+        if r.chance(1, 2) {
+            s.tcp_opts = vec![1, 1, 8, 10, r.u8(), r.u8(), r.u8(), r.u8(), 0, 0, 0, 1];
+        }
+        s.ttl = 1 + r.below(255) as u8;
+        s.tos = r.u8() & 0xfc;
+    }
     pkt::frame(&s, framing)
 }
 
@@ -399,7 +430,7 @@ fn gen_cuts(r: &mut Rng, len: usize, record_total: usize) -> Vec<usize> {
 impl Prop for C08 {
     type Scn = Scn;
     const ID: &'static str = "C08";
-    const ENGINE: &'static str = "netsim";
+    const ENGINE: &'static str = crate::NETSIM_ENGINE;
 
     fn rule() -> &'static str {
         "one evaluation = one delivery history (a record stream cut into in-order segments, possibly interleaved with other flows) through the reader API, the per-packet path or the sequential packet loop of HuginnNetTls; non-trivial = the stream holds a complete ClientHello AND is delivered in >= 2 segments; distinct = distinct event-log hash (cuts, results)"
@@ -430,7 +461,8 @@ impl Prop for C08 {
             if path != Path::Reader {
                 force_mtu(&mut cuts, stream.len());
             }
-            flows.push(Flow { src, dst, isn: r.u32(), stream, record_total, cuts, hot });
+            let hdr_noise = if r.chance(1, 4) { r.next_u64() | 1 } else { 0 };
+            flows.push(Flow { src, dst, isn: r.u32(), stream, record_total, cuts, hot, hdr_noise });
         }
         // distinct 4-tuples
         dedup_tuples(&mut flows);
@@ -470,7 +502,7 @@ impl Prop for C08 {
                 if tier == Tier::Quick && pi == 1 && h > 0 {
                     continue;
                 }
-                let flow = Flow { src: Endpoint::v4(10, 9, 0, 1, 50000), dst: Endpoint::v4(10, 9, 1, 1, 443), isn: 0xffff_ff00, stream: stream.clone(), record_total, cuts: vec![], hot: vec![] };
+                let flow = Flow { src: Endpoint::v4(10, 9, 0, 1, 50000), dst: Endpoint::v4(10, 9, 1, 1, 443), isn: 0xffff_ff00, stream: stream.clone(), record_total, cuts: vec![], hot: vec![], hdr_noise: 0 };
                 let mut alt: Vec<Vec<usize>> = (5..len).map(|c| vec![c]).collect();
                 if len <= 300 && tier == Tier::Thorough && h < 6 {
                     for a in 5..len {
